@@ -24,11 +24,14 @@ PREDS = {"C02": ["P_C02_DeliverOnce", "P_C02_ValidateOnce", "P_C02_LocalDup"],
 OBLIGATIONS = {
     "C02": ["dup_dropped_at_shouldPush", "dup_dropped_at_markSeen_in_worker", "dup_of_locally_published_id",
             "local_publish_of_seen_id_returns_nil", "dup_inside_one_rpc_on_novalidator_path",
-            "dup_inside_one_rpc_on_novalidator_path_gossipsub", "dup_inside_one_rpc_on_novalidator_path_floodsub"],
+            "dup_inside_one_rpc_on_novalidator_path_gossipsub", "dup_inside_one_rpc_on_novalidator_path_floodsub",
+            "addtobatch_while_earlier_publishbatch_pending"],
     "C04": ["inline_ignore_then_async_accept_stays_ignore", "inline_ignore_plus_async_reject", "throttled_plus_ignore",
             "unknown_verdict", "timeout", "dup_during_validation_then_reject_penalised",
             "dup_during_validation_then_ignore_unpenalised", "local_reject", "dup_after_reject_with_full_queue_penalised",
-            "two_topics_queued_together_with_3plus_defaults"],
+            "two_topics_queued_together_with_3plus_defaults",
+            "forwarder_left_before_reject_retained_record_inspected", "first_deliverer_left_before_reject", "dup_forwarder_left_before_reject",
+            "batch_with_rejected_and_ignored_next_to_accepted_published"],
 }
 
 ASSUMPTIONS = [
@@ -48,9 +51,9 @@ def _q(xs):
     return set('"%s"' % x for x in xs)
 
 
-def _mc_cfg(ids, local, calls, nvmax, qcap, copies, verdicts, space, bug="none", workers=("w1", "w2"), symmetry=True, batch=1, t2=()):
+def _mc_cfg(ids, local, calls, nvmax, qcap, copies, verdicts, space, bug="none", workers=("w1", "w2"), symmetry=True, batch=1, t2=(), down=0, modes=("pub",)):
     consts = {"Fwd": {"p1", "p2"}, "Ids": set(ids), "LocalIds": set(local), "T2Ids": set(t2), "Workers": set(workers), "Calls": set(calls),
-              "Subs": {"s1"}, "NVmax": nvmax, "QCap": qcap, "MaxCopies": copies, "MaxBatch": batch, "Verdicts": _q(verdicts),
+              "Subs": {"s1"}, "NVmax": nvmax, "QCap": qcap, "MaxCopies": copies, "MaxBatch": batch, "MaxDown": down, "Modes": _q(modes), "Verdicts": _q(verdicts),
               "CfgSpace": "CfgSpace <- " + space, "Bug": '"%s"' % bug}
     return vlib.cfg_text(constants=consts,
                          invariants=["TypeOK"] + PREDS["C02"] + PREDS["C04"], view="View",
@@ -66,6 +69,8 @@ def mc_plan(thorough):
         ("c02-races", _mc_cfg(["m1"], ["m1"], ["c1"], 3, 2, 3, ALL4, "CfgC02", batch=3), None, 600, False),
         ("loop-path", _mc_cfg(["m1", "m2"], ["m1"], ["c1"], 0, 2, 3, ["A"], "CfgLoop", batch=3), None, 300, False),
         ("two-topics", _mc_cfg(["m1", "m2"], ["m1"], ["c1"], 3, 2, 1, ["A", "R", "I"], "CfgTopics01", t2=["m2"]), None, 300, False),
+        ("disconnect", _mc_cfg(["m1"], [], [], 2, 2, 3, ["A", "R", "I"], "CfgBugAB", down=1), None, 300, False),
+        ("batch-api", _mc_cfg(["m1", "m2"], ["m1", "m2"], ["c1", "c2"], 2, 2, 0, ALL4, "CfgBugA", modes=("pub", "batch")), None, 300, False),
     ]
     bugs = [("markSeenLate", "CfgBugA", ["P_C02_ValidateOnce"], 1), ("noCarry", "CfgBugA", ["P_C04_OnlyIfAllAccept", "P_C04_Outcome"], 1),
             ("unknownAccept", "CfgBugA", ["P_C04_OnlyIfAllAccept", "P_C04_Outcome", "P_C04_Local"], 1),
@@ -73,12 +78,19 @@ def mc_plan(thorough):
             ("dupErrReturned", "CfgBugA", ["P_C02_LocalDup"], 1), ("ignoreOverThrottle", "CfgBugB", ["P_C04_Outcome"], 2),
             ("acceptOverrides", "CfgBugB", ["P_C04_OnlyIfAllAccept", "P_C04_Outcome"], 1), ("pushNoMark", "CfgBugL", ["P_C02_DeliverOnce"], 1),
             ("noSeenCheck", "CfgBugA", ["P_C04_Penalty"], 3), ("pushIgnoreResult", "CfgBugL", ["P_C02_DeliverOnce"], 4),
-            ("sharedVals", "CfgTopics1", ["P_C04_Applicable", "P_C04_OnlyIfAllAccept"], 5)]
+            ("sharedVals", "CfgTopics1", ["P_C04_Applicable", "P_C04_OnlyIfAllAccept"], 5),
+            ("frozenRetained", "CfgBugAB", ["P_C04_Penalty"], 6), ("batchSharedArray", "CfgBugL", ["P_C02_DeliverOnce"], 8), ("batchKeepsFailed", "CfgBugA", ["P_C04_Local", "P_C04_OnlyIfAllAccept"], 7)]
     for bug, space, expect, shape in bugs:
         if shape == 1:
             cfg = _mc_cfg(["m1"], ["m1"], ["c1"], 2, 2, 2, ALL4, space, bug)
         elif shape == 2:   # needs a second id for the per-validator throttle
             cfg = _mc_cfg(["m1", "m2"], [], [], 2, 2, 1, ["A", "R", "I"], space, bug)
+        elif shape == 8:   # one MessageBatch reused while its earlier request is pending
+            cfg = _mc_cfg(["m1", "m2"], ["m1", "m2"], ["c1", "c2"], 0, 2, 0, ["A"], space, bug, modes=("batch",))
+        elif shape == 6:   # a forwarder leaves while its message is being validated
+            cfg = _mc_cfg(["m1"], [], [], 2, 2, 2, ["A", "R"], space, bug, down=1)
+        elif shape == 7:   # AddToBatch + PublishBatch
+            cfg = _mc_cfg(["m1", "m2"], ["m1", "m2"], ["c1", "c2"], 2, 2, 0, ["A", "R"], space, bug, modes=("pub", "batch"))
         elif shape == 5:   # two topics with their own validators, two messages queued together
             cfg = _mc_cfg(["m1", "m2"], [], [], 3, 2, 1, ["A", "R"], space, bug, t2=["m2"])
         elif shape == 4:   # no local publish: only two copies of one id inside ONE RPC both pass shouldPush
@@ -88,6 +100,7 @@ def mc_plan(thorough):
         plan.append(("bug-" + bug, cfg, expect, 600, False))
     if thorough:
         plan += [
+            ("batch-api-remote", _mc_cfg(["m1", "m2"], ["m1", "m2"], ["c1", "c2"], 2, 2, 1, ["A", "R", "I"], "CfgBugA", modes=("batch",)), None, 600, True),
             ("two-ids-all", _mc_cfg(["m1", "m2"], [], [], 2, 1, 2, ["A", "R", "I"], "CfgTwoAll", batch=2), None, 600, True),
             ("verdicts4", _mc_cfg(["m1"], ["m1"], ["c1"], 4, 2, 2, ALL4, "CfgC04"), None, 700, True),
             ("design-c02", _mc_cfg(["m1", "m2"], ["m1"], ["c1"], 3, 2, 3, ALL4, "CfgC02"), None, 500, True),
@@ -145,6 +158,10 @@ def rpc(p, *ms): return {"a": "rpc", "p": p, "ms": list(ms)}
 def rel(v, m, r): return {"a": "rel", "v": v, "m": m, "r": r}
 def adv(*tv): return {"a": "adv", "tv": [{"v": v, "m": m, "r": r} for v, m, r in tv]}
 def pub(m): return {"a": "pub", "m": m}
+def badd(m): return {"a": "badd", "m": m}
+def bpub(): return {"a": "bpub"}
+def down(p): return {"a": "down", "p": p}
+def held(*acts): return {"a": "held", "acts": list(acts)}
 def block(m): return {"a": "block", "m": m}
 def unblock(m): return {"a": "unblock", "m": m}
 
@@ -252,6 +269,41 @@ def directed():
     add("topics_local_publish", mkcfg(5, [1, 2], tv1=4, tv2=5, t2=True, idfn="content"),
         [pub("n1"), rel(1, "n1", A), rel(2, "n1", A), rel(3, "n1", A), msg("p1", "m1"), rel(5, "n1", R), rel(1, "m1", A), rel(2, "m1", A),
          rel(3, "m1", A), rel(4, "m1", A), msg("p1", "n1")])
+    # a forwarder leaves while its message is parked in a validator: the verdict is charged to its RETAINED record
+    for nm, c in (("inl", mkcfg(1, [1], router="gossipsub")), ("async", mkcfg(1, [], router="gossipsub")), ("two_async", mkcfg(2, [], router="gossipsub"))):
+        last = c["nv"]
+        pre = [rel(v, "m1", A) for v in range(1, last)]
+        add("left_first_deliverer_reject_" + nm, c, [msg("p1", "m1"), msg("p2", "m1"), down("p1")] + pre + [rel(last, "m1", R), msg("p2", "m1")])
+        add("left_dup_forwarder_reject_" + nm, c, [msg("p1", "m1"), msg("p2", "m1"), down("p2")] + pre + [rel(last, "m1", R), msg("p1", "m1")])
+        add("left_first_deliverer_ignore_" + nm, c, [msg("p1", "m1"), msg("p2", "m1"), down("p1")] + pre + [rel(last, "m1", I), msg("p2", "m1")])
+        add("left_dup_forwarder_ignore_" + nm, c, [msg("p1", "m1"), msg("p2", "m1"), down("p2")] + pre + [rel(last, "m1", I)])
+        add("left_only_forwarder_reject_" + nm, c, [msg("p1", "m1"), down("p1")] + pre + [rel(last, "m1", R), msg("p2", "m1")])
+    add("left_in_queue_reject", mkcfg(1, [1], router="gossipsub"), [block("b1"), block("b2"), msg("p1", "m1"), msg("p2", "m1"), down("p1"), unblock("b1"),
+                                                                   unblock("b2"), rel(1, "m1", R)])
+    # the batch API on the local side: AddToBatch runs the validators like Publish; what fails must not stay in the batch
+    bc = mkcfg(2, [1], idfn="content", router="gossipsub")
+    add("batch_mixed", bc, [badd("m1"), rel(1, "m1", A), rel(2, "m1", A), badd("m2"), rel(1, "m2", R), badd("m3"), rel(1, "m3", A), rel(2, "m3", I),
+                            badd("m4"), rel(1, "m4", A), rel(2, "m4", A), bpub(), msg("p1", "m2"), msg("p1", "m1")])
+    add("batch_mixed_unknown", bc, [badd("m1"), rel(1, "m1", I), rel(2, "m1", A), badd("m2"), rel(1, "m2", A), rel(2, "m2", A), badd("m3"),
+                                    rel(1, "m3", A), rel(2, "m3", R), badd("m4"), rel(1, "m4", U), bpub(), pub("m3"), bpub()])
+    add("batch_rejected_only", bc, [badd("m1"), rel(1, "m1", A), rel(2, "m1", R), bpub(), msg("p1", "m1")])
+    add("batch_ignored_only", mkcfg(1, [], idfn="topic", router="gossipsub"), [badd("m1"), rel(1, "m1", I), bpub(), bpub()])
+    add("batch_dup_of_remote", bc, [msg("p1", "m1"), rel(1, "m1", A), rel(2, "m1", A), badd("m1"), badd("m2"), rel(1, "m2", A), rel(2, "m2", A), bpub()])
+    add("batch_two_publishes", bc, [badd("m1"), rel(1, "m1", A), rel(2, "m1", A), bpub(), badd("m2"), rel(1, "m2", R), badd("m3"), rel(1, "m3", A),
+                                    rel(2, "m3", A), bpub(), badd("m1")])
+    add("batch_topics", mkcfg(4, [1, 3], tv1=3, tv2=4, t2=True, idfn="content", router="gossipsub"),
+        [badd("m1"), rel(1, "m1", A), rel(2, "m1", A), rel(3, "m1", R), badd("n1"), rel(1, "n1", A), rel(2, "n1", A), rel(4, "n1", I),
+         badd("n2"), rel(1, "n2", A), rel(2, "n2", A), rel(4, "n2", A), badd("m2"), rel(1, "m2", A), rel(2, "m2", A), rel(3, "m2", A), bpub()])
+    # batch REUSE: AddToBatch lands on the batch object while an earlier PublishBatch of the same object is still pending
+    # in front of the (parked) event loop; every accepted message is delivered exactly once
+    add("batch_reuse_while_pending", bc, [badd("m1"), rel(1, "m1", A), rel(2, "m1", A), badd("m2"), rel(1, "m2", A), rel(2, "m2", A),
+                                          badd("m3"), rel(1, "m3", A), held(bpub(), rel(2, "m3", A)), bpub(), msg("p1", "m1")])
+    add("batch_reuse_while_pending_two", mkcfg(1, [1], idfn="topic", router="gossipsub"),
+        [badd("m1"), rel(1, "m1", A), badd("m2"), badd("m3"), held(bpub(), rel(1, "m2", A), rel(1, "m3", A)), bpub(), badd("m4"), rel(1, "m4", A), bpub()])
+    add("batch_reuse_while_pending_reject", bc, [badd("m1"), rel(1, "m1", A), rel(2, "m1", A), badd("m2"), rel(1, "m2", A),
+                                                 held(bpub(), rel(2, "m2", R)), badd("m3"), rel(1, "m3", A), rel(2, "m3", A), bpub()])
+    add("batch_reuse_after_consumed", bc, [badd("m1"), rel(1, "m1", A), rel(2, "m1", A), bpub(), badd("m2"), rel(1, "m2", A), rel(2, "m2", A), bpub()])
+    add("batch_novalidators", mkcfg(0, idfn="content", router="gossipsub"), [badd("m1"), badd("m2"), badd("m1"), bpub(), msg("p1", "m1")])
     add("unsigned_validators", mkcfg(2, [2], signed=False), [msg("p1", "m1"), msg("p2", "m1"), rel(2, "m1", A), rel(1, "m1", R), msg("p2", "m1")])
     add("relay_only", mkcfg(1, [1], subs=0, relay=True), [msg("p1", "m1"), rel(1, "m1", A), msg("p2", "m1"), msg("p1", "m2"), rel(1, "m2", I)])
     add("not_interested", mkcfg(1, [1], subs=0), [msg("p1", "m1"), msg("p2", "m1")])
@@ -269,7 +321,9 @@ def directed():
 
 def variants(cfg, acts, rng, n):
     """Concrete driver configurations of one scenario: id function, seen strategy, router, topic validator."""
-    has_pub = any(a["a"] == "pub" for a in acts)
+    has_pub = any(a["a"] in ("pub", "badd") for a in acts)
+    if any(a["a"] in ("badd", "bpub", "held") for a in acts):
+        cfg = dict(cfg, router="gossipsub")          # only the gossipsub router is a BatchPublisher
     # a local publish needs a content-based id: to collide with remote copies, and because the harness names messages by
     # payload while the event tracer reports locally published ones by id only
     idfns = ["content", "topic"] if has_pub or cfg.get("idfn") in ("content", "topic") else ["default", "content", "topic"]
@@ -341,8 +395,8 @@ def gen_module(cfgs):
 
 
 def run_gen(ctx, rng, walks, L, name, ncfg=28, min_emit=3):
-    consts = {"Fwd": _q(["p1", "p2"]), "Ids": _q(["m1", "m2", "n1"]), "T2Ids": _q(["n1"]), "LocalIds": _q(["m1"]), "Workers": _q(["w1", "w2"]),
-              "Calls": _q(["c1"]), "Subs": _q(["s1", "s2"]), "NVmax": 5, "QCap": 2, "MaxCopies": 3, "MaxBatch": 2, "Verdicts": _q(ALL4),
+    consts = {"Fwd": _q(["p1", "p2"]), "Ids": _q(["m1", "m2", "n1"]), "T2Ids": _q(["n1"]), "LocalIds": _q(["m1", "m2"]), "Workers": _q(["w1", "w2"]),
+              "Calls": _q(["c1", "c2"]), "Subs": _q(["s1", "s2"]), "NVmax": 5, "QCap": 2, "MaxCopies": 3, "MaxBatch": 2, "MaxDown": 1, "Modes": _q(["pub", "batch"]), "Verdicts": _q(ALL4),
               "CfgSpace": "CfgSpace <- GenCfgs", "Bug": '"none"', "L": L, "MinEmit": min_emit, "MaxBlock": 2, "MaxAdv": 1}
     cfg = vlib.cfg_text(init="GInit", next_="GNext", constants=consts, invariants=["Emit", "GenOK"])
     g = vlib.run_tlc(ctx, FAMILY, "GenRun", cfg, mode="sim", simulate="num=%d" % walks, depth=6 * L + 10, workers=1,
@@ -364,6 +418,8 @@ def from_model(s, rng):
         elif a["a"] == "adv":
             a["tv"] = [{"v": x["v"], "m": x["m"], "r": conv(x["r"])} for x in a["tv"]]
         acts.append(a)
+    if any(a["a"] == "badd" for a in acts):
+        acts.append({"a": "bpub"})      # whatever the batch still holds (nothing, when the node did what the model expects) is published
     c = dict(s["cfg"])
     return c, acts
 
@@ -489,10 +545,10 @@ def project(idx, cfg, tr):
                         names.add(_nm(i))
         dl = [{"sub": d["sub"], "m": _nm(d["m"]), "s": s} for d in ln["deliv"]]
         names.update(d["m"] for d in dl)
-        pr = [{"m": x["m"], "err": x["err"], "s": s} for x in ln.get("pubret", [])]
+        pr = [{"m": x["m"], "err": x["err"], "api": x.get("api", "pub"), "s": s} for x in ln.get("pubret", [])]
         if m and not BLOCKER.match(m):
             names.add(m)
-        pen = [{"p": x["p"], "n": x["n"]} for x in ln.get("pen", []) if x["p"] != "pb"] if score else []
+        pen = [{"p": x["p"], "n": x["n"], "c": bool(x.get("c", True))} for x in ln.get("pen", []) if x["p"] != "pb"] if score else []
         out.append({"a": kind, "scn": idx, "s": s, "m": m, "ms": ms, "p": act.get("p", ""), "ev": ev, "val": val, "fwd": fwd, "ih": ih,
                     "dl": dl, "pr": pr, "pen": pen})
     names = sorted(n for n in names if n and not BLOCKER.match(n))
@@ -656,7 +712,8 @@ def summarize(cfg, tr):
         for f in ln["fwd"]:
             S["fwd"][f["m"]] = S["fwd"].get(f["m"], 0) + 1
         for x in ln["pr"]:
-            S["pubrets"].append((x["m"], x["err"], ln["s"]))
+            if x.get("api") != "bpub":
+                S["pubrets"].append((x["m"], x["err"], ln["s"]))
         if ln["pen"]:
             S["pen"] = {x["p"]: x["n"] for x in ln["pen"]}
     return S
@@ -768,6 +825,39 @@ def coverage_hits(cfg, tr, hits):
                     hit("dup_during_validation_then_ignore_unpenalised")
             if s > rs and reason == "validation failed" and S["pen"].get(via, 0) >= 1:
                 hit("dup_after_reject_penalised")
+    # a forwarder left between forwarding m and m's Reject verdict, and its retained record was read at the verdict
+    down_step = {ln["p"]: ln["s"] for ln in tr[1:] if ln["a"] == "down"}
+    sent_at = {}
+    for ln in tr[1:]:
+        if ln["a"] == "msg":
+            sent_at.setdefault((ln["p"], ln["m"]), ln["s"])
+        elif ln["a"] == "rpc":
+            for x in ln["ms"]:
+                sent_at.setdefault((ln["p"], x), ln["s"])
+    for m, (reason, rs) in reject_step.items():
+        if reason != "validation failed" or m not in S["validate"]:
+            continue
+        at = next((ln for ln in tr[1:] if ln["s"] == rs), None)
+        for q, sd in down_step.items():
+            if (q, m) in sent_at and sent_at[(q, m)] < sd < rs and at and any(x["p"] == q and not x.get("c", True) for x in at["pen"]):
+                hit("forwarder_left_before_reject_retained_record_inspected")
+                hit("first_deliverer_left_before_reject" if S["validate"][m][0] == q else "dup_forwarder_left_before_reject")
+    # AddToBatch ... PublishBatch: a batch with a rejected and an ignored message next to accepted ones was published
+    adds = []
+    for ln in tr[1:]:
+        adds += [(x["m"], x["err"]) for x in ln["pr"] if x.get("api") == "badd"]
+        if ln["a"] == "held":
+            apis = [x.get("api") for x in ln["pr"]]
+            if "bpub" in apis and "badd" in apis[apis.index("bpub"):]:
+                hit("addtobatch_while_earlier_publishbatch_pending")
+        if any(x.get("api") == "bpub" for x in ln["pr"]):
+            errs = {e for _, e in adds}
+            ok = [m for m, e in adds if e == "" and any(v["k"] == "Deliver" and v["m"] == m and v["self"] for v in ln["ev"])]
+            if "validation failed" in errs and "validation ignored" in errs and ok:
+                hit("batch_with_rejected_and_ignored_next_to_accepted_published")
+            if adds:
+                hit("batch_published")
+            adds = []
     for m, err, s in S["pubrets"]:
         if err == "validation failed":
             hit("local_reject")
